@@ -37,7 +37,7 @@ Qed.
 
 (* the highest revision the sequencer has consumed *)
 Definition frontier (s : rstate) : N :=
-  match seq s with SqStore r => r | _ => committed s end.
+  match seq s with SqStore r | SqStoreCas r _ => r | _ => committed s end.
 
 Record rinv (s : rstate) : Prop := {
   ri_fd : frontier s <= dealt s;
@@ -54,6 +54,7 @@ Record rinv (s : rstate) : Prop := {
            | SqIdle => True
            | SqGot r => r = committed s + 1 /\ exists v, slots s (r mod cap) = Some v /\ sv_rev v = r
            | SqStore r => r = committed s + 1
+           | SqStoreCas r cur => r = committed s + 1 /\ cur = committed s
            | SqLoadDealt r => committed s = r
            | SqCas r pre => committed s = r /\ r <= pre
            end
@@ -148,7 +149,7 @@ Qed.
 Lemma rinv_seq s : rinv s -> rinv (r_seq s).
 Proof.
   intros I. pose proof I as [Hfd Hcf Hh Hnd Hdj Hex Hsl Hacc Hsq].
-  unfold r_seq. destruct (seq s) as [|r|r|r|r pre] eqn:Eseq.
+  unfold r_seq. destruct (seq s) as [|r|r|r cur|r|r pre] eqn:Eseq.
   - (* idle: load *)
     destruct (slots s ((committed s + 1) mod cap)) as [v|] eqn:Es; [|exact I].
     assert (Hfr : frontier (set_seq s (SqGot (sv_rev v))) = frontier s)
@@ -180,8 +181,13 @@ Proof.
       intros Heq. destruct (Hsl _ _ Hs') as (_ & B & C & _). rewrite ?Hf0 in B. rewrite Hv' in B, C.
       assert (r' = r) by (apply (mod_cap_inj _ _ (committed s)); lia). lia.
     + exact Er.
-  - (* committed := r *)
+  - (* raise-only commit: load committed *)
     assert (Hf0 : frontier s = r) by (unfold frontier; rewrite Eseq; reflexivity).
+    constructor; unfold frontier; simpl; rewrite ?Hf0 in *; auto; try lia.
+  - (* raise-only commit: the compare-and-swap succeeds, nobody else writes committed here *)
+    destruct Hsq as [Er Ecur]. subst cur.
+    assert (Hf0 : frontier s = r) by (unfold frontier; rewrite Eseq; reflexivity).
+    destruct (N.leb_spec r (committed s)); [lia|]. rewrite N.eqb_refl.
     constructor; unfold frontier; simpl; rewrite ?Hf0 in *; auto; try lia.
     intros i v Hs. destruct (Hsl _ _ Hs) as (A & B & C & D). repeat split; auto; lia.
   - (* load dealt *)
@@ -232,8 +238,9 @@ Proof.
     + reflexivity.
     + destruct (_ || _); [|reflexivity]. unfold r_notify.
       destruct (rev =? 0); [reflexivity|]. destruct (cap <=? _); reflexivity.
-    + unfold r_seq. destruct (seq s) as [|r|r|r|r pre] eqn:Eseq; simpl; try reflexivity.
+    + unfold r_seq. destruct (seq s) as [|r|r|r cur|r|r pre] eqn:Eseq; simpl; try reflexivity.
       * destruct (slots s _); reflexivity.
+      * destruct (r <=? cur); [reflexivity|]. destruct (committed s =? cur); reflexivity.
       * pose proof (ri_seq s I) as H. rewrite Eseq in H. destruct H as [_ H].
         destruct (N.ltb_spec pre r); [lia|reflexivity].
 Qed.
@@ -242,9 +249,10 @@ Lemma committed_mono_step s l : rinv s -> committed s <= committed (rstep s l).
 Proof.
   intros I. unfold rstep. destruct (renabled s l); [|lia]. destruct l as [t|t rev valid|]; simpl; try lia.
   - unfold r_notify. destruct (rev =? 0); [lia|]. destruct (cap <=? _); simpl; lia.
-  - unfold r_seq. destruct (seq s) as [|r|r|r|r pre] eqn:Eseq; simpl; try lia.
+  - unfold r_seq. destruct (seq s) as [|r|r|r cur|r|r pre] eqn:Eseq; simpl; try lia.
     + destruct (slots s _); simpl; lia.
-    + pose proof (ri_seq s I) as H. rewrite Eseq in H. lia.
+    + pose proof (ri_seq s I) as H. rewrite Eseq in H.
+      destruct (r <=? cur); simpl; [lia|]. destruct (committed s =? cur); simpl; lia.
     + destruct (pre <? r); simpl; lia.
 Qed.
 
@@ -282,6 +290,7 @@ Proof.
   set (s1 := set_seq s (SqGot r)).
   set (s2 := {| dealt := dealt s; committed := committed s; slots := upd (slots s) (r mod cap) None;
                 seq := SqStore r; held := held s; rlog := rlog s; rpanic := rpanic s |}).
+  set (s2b := set_seq s2 (SqStoreCas r (committed s))).
   set (s3 := {| dealt := dealt s; committed := r; slots := upd (slots s) (r mod cap) None;
                 seq := SqLoadDealt r; held := held s; rlog := rlog s; rpanic := rpanic s |}).
   set (s4 := set_seq s3 (SqCas r (dealt s))).
@@ -289,13 +298,16 @@ Proof.
   assert (E1 : rstep s RSeq = s1).
   { rewrite Hstep by exact Hp. unfold r_seq. rewrite Hs, Hv. reflexivity. }
   assert (E2 : rstep s1 RSeq = s2) by (rewrite Hstep by exact Hp; reflexivity).
-  assert (E3 : rstep s2 RSeq = s3) by (rewrite Hstep by exact Hp; reflexivity).
+  assert (E2b : rstep s2 RSeq = s2b) by (rewrite Hstep by exact Hp; reflexivity).
+  assert (E3 : rstep s2b RSeq = s3).
+  { rewrite Hstep by exact Hp. unfold r_seq. cbn [seq s2b set_seq committed s2].
+    destruct (N.leb_spec r (committed s)); [lia|]. rewrite N.eqb_refl. reflexivity. }
   assert (E4 : rstep s3 RSeq = s4) by (rewrite Hstep by exact Hp; reflexivity).
   assert (E5 : rstep s4 RSeq = s5).
   { rewrite Hstep by exact Hp. unfold r_seq. cbn [seq s4 set_seq].
     match goal with |- context [?a <? ?b] => destruct (N.ltb_spec a b) as [Hlt|Hge] end; [|reflexivity].
     exfalso. cbn in Hlt. lia. }
-  cbv [seq_take_labels rrun fold_left]. rewrite E1, E2, E3, E4, E5.
+  cbv [seq_take_labels rrun fold_left]. rewrite E1, E2, E2b, E3, E4, E5.
   cbn. unfold r in *. rewrite Erev. repeat split; auto.
 Qed.
 
@@ -329,7 +341,8 @@ Proof.
   - unfold r_notify in *. destruct (rev =? 0); [exact D|]. destruct (cap <=? _); [exact D|].
     unfold dealt_desc. simpl. exact D.
   - assert (Hl : rlog (r_seq s) = rlog s).
-    { unfold r_seq. destruct (seq s); simpl; auto; [destruct (slots s _); auto|destruct (_ <? _); auto]. }
+    { unfold r_seq. destruct (seq s) as [|r|r|r cur|r|r pre]; simpl; auto;
+        [destruct (slots s _); auto|destruct (r <=? cur); auto; destruct (committed s =? cur); auto|destruct (pre <? r); auto]. }
     unfold dealt_desc. rewrite Hl. fold (dealt_desc s). rewrite Hd. exact D.
 Qed.
 
@@ -365,14 +378,32 @@ Definition tinv (s : tstate) : Prop := sdecr (t_dealt s + 1) (map snd (t_log s))
 
 Lemma tinv_step s l : tinv s -> tinv (tstep false s l).
 Proof.
-  unfold tinv. intros I. destruct l as [t|t rev|t|t]; simpl.
+  unfold tinv. intros I. destruct l as [t|t rev|t|t|t|t]; simpl.
   - split; [lia|exact I].
   - destruct (t_pc s t); exact I.
   - destruct (t_pc s t); exact I.
-  - destruct (t_pc s t) as [|rev|rev pre]; try exact I. simpl.
+  - destruct (t_pc s t) as [|rev|rev cur|rev|rev pre]; try exact I.
+    destruct (rev <=? cur); [exact I|]. destruct (t_committed s =? cur); exact I.
+  - destruct (t_pc s t); exact I.
+  - destruct (t_pc s t) as [|rev|rev cur|rev|rev pre]; try exact I. simpl.
     destruct (N.ltb_spec pre rev); [|exact I].
     destruct (N.eqb_spec (t_dealt s) pre) as [E|_]; [|exact I].
     eapply sdecr_weaken; [|exact I]. lia.
+Qed.
+
+(* the read revision of a node never moves backwards, whoever calls Commit with whatever revision (repo 1eb892a) *)
+Lemma t_committed_mono_step plain s l : t_committed s <= t_committed (tstep plain s l).
+Proof.
+  unfold tstep, t_set_pc. destruct l as [t|t rev|t|t|t|t]; cbn [t_committed]; try lia;
+    destruct (t_pc s t) as [|rev0|rev0 cur|rev0|rev0 pre]; cbn [t_committed]; try lia.
+  destruct (N.leb_spec rev0 cur); cbn [t_committed]; [lia|].
+  destruct (N.eqb_spec (t_committed s) cur); cbn [t_committed]; lia.
+Qed.
+
+Lemma t_committed_mono plain ls : forall s, t_committed s <= t_committed (trun plain ls s).
+Proof.
+  unfold trun. induction ls as [|l ls IH]; intros s; cbn [fold_left]; [lia|].
+  eapply N.le_trans; [apply (t_committed_mono_step plain s l)|apply IH].
 Qed.
 
 Lemma tinv_run ls : forall s, tinv s -> tinv (trun false ls s).
@@ -388,7 +419,7 @@ Proof. eapply sdecr_NoDup, tso_dealt_increasing. Qed.
 
 (* with a plain store in place of the compare-and-swap a revision is dealt twice *)
 Definition tso_plain_witness : list tlabel :=
-  [TCommit 9 12; TLoad 9; TDeal 0; TDeal 1; TDeal 0; TCas 9; TDeal 1].
+  [TCommit 9 12; TLoadC 9; TCasC 9; TLoad 9; TDeal 0; TDeal 1; TDeal 0; TCas 9; TDeal 1].
 
 Lemma tso_plain_store_refuted :
   map snd (t_log (trun true tso_plain_witness (tinit 10))) = [13; 13; 12; 11]
